@@ -28,6 +28,14 @@ fn gen_buffers(r: &mut Rng, seed: u64) -> Case {
             let n = if kind == "wide-chord-v2" { r.range(12, 36) } else { r.range(6, 24) } as usize;
             let keys = &KEYS[..n];
             let mut chords: Vec<Vec<&str>> = vec![keys.to_vec()];
+            if r.chance(250) {
+                // a participant list that names keys more than once (up to 40 entries)
+                let extra = r.range(1, 40usize.saturating_sub(n).max(1) as u64) as usize;
+                for _ in 0..extra {
+                    let k = *r.pick(keys);
+                    chords[0].push(k);
+                }
+            }
             for _ in 0..r.range(0, 3) {
                 let mut ks = keys.to_vec();
                 r.shuffle(&mut ks);
@@ -349,6 +357,9 @@ impl Prop for C02 {
         };
         st.run_ops(&case.ops);
         st.finish();
+        if st.flood {
+            return RunOut::skip("replay-fast-forward-output-flood");
+        }
         let mut o = RunOut::pass();
         o.sim_ms = st.trace.sim_ms;
         o.sig = trace_sig(&st.trace.outs);
